@@ -7,6 +7,9 @@
 #include "support/NotCopyable.h"
 #include "util/NestCount.h"
 #include "util/OutputPrinter.h"
+#ifdef MUSCLE_VERIF_HOOKS
+# include "support/VerifSimHooks.h"
+#endif
 
 #ifndef MUSCLE_SINGLE_THREAD_ONLY
 # if defined(QT_CORE_LIB)  // is Qt4 available?
@@ -267,6 +270,9 @@ private:
 
    status_t LockAux() const
    {
+#if defined(MUSCLE_VERIF_HOOKS) && !defined(MUSCLE_SINGLE_THREAD_ONLY)
+      if ((g_muscleVerifSim)&&(g_muscleVerifSim->mutexLock)&&(_isEnabled)) g_muscleVerifSim->mutexLock(this);
+#endif
 #ifdef MUSCLE_ENABLE_LOCKING_VIOLATIONS_CHECKER
       CheckForLockingViolation("Lock");
 #endif
@@ -301,6 +307,9 @@ private:
 
    status_t TryLockAux() const
    {
+#if defined(MUSCLE_VERIF_HOOKS) && !defined(MUSCLE_SINGLE_THREAD_ONLY)
+      if ((g_muscleVerifSim)&&(g_muscleVerifSim->mutexTryLock)&&(_isEnabled)&&(g_muscleVerifSim->mutexTryLock(this) == false)) return B_LOCK_FAILED;
+#endif
 #ifdef MUSCLE_ENABLE_LOCKING_VIOLATIONS_CHECKER
       CheckForLockingViolation("TryLock");
 #endif
@@ -339,6 +348,9 @@ private:
       return B_NO_ERROR;
 #elif !defined(MUSCLE_AVOID_CPLUSPLUS11)
       _locker.unlock();
+# ifdef MUSCLE_VERIF_HOOKS
+      if ((g_muscleVerifSim)&&(g_muscleVerifSim->mutexUnlock)) g_muscleVerifSim->mutexUnlock(this);
+# endif
       return B_NO_ERROR;
 #elif defined(MUSCLE_USE_PTHREADS)
       return B_ERRNUM(pthread_mutex_unlock(&_locker));
